@@ -448,13 +448,18 @@ func (s *Service) shouldRedirectToHTTPS(r *http.Request) bool {
 }
 
 func (s *Service) handlePausedAndStoppedRequests(w http.ResponseWriter, r *http.Request) bool {
-	if s.pauseController.GetState() != PauseStateRunning && s.targetOptions.IsHealthCheckRequest(r) {
+	if s.targetOptions.IsHealthCheckRequest(r) {
 		// When paused or stopped, return success for any health check
 		// requests from downstream services. Otherwise, they might consider
 		// us as unhealthy while in that state, and remove us from their
-		// pool.
-		w.WriteHeader(http.StatusOK)
-		return true
+		// pool. Health checks are never held: deciding on a single read of
+		// the state keeps a pause that lands right after it from holding
+		// (and then timing out) the health check.
+		if s.pauseController.GetState() != PauseStateRunning {
+			w.WriteHeader(http.StatusOK)
+			return true
+		}
+		return false
 	}
 
 	action, message := s.pauseController.Wait()
